@@ -148,6 +148,15 @@ def build_cases(ck, tmp, variant=0):
         pp = fpath(c or b"", "payload.bin")
         desc = base_env(top_extra={"suit-integrated-payloads": {name: pp}})
         cases.append((desc, {pp: c}, {"kind": "payload_path", "size": size, "name": name, "content": c}))
+    # file_direct digests whose first / last bytes have whitespace values (binary data is taken as it is, never trimmed)
+    for w in ([9, 10, 13, 32] if not ck.deep else [9, 10, 11, 12, 13, 28, 29, 30, 31, 32, 0x85, 0xA0, 0]):
+        for form in ("both", "tail", "all"):
+            dg = {"both": bytes([w]) + blob(30, w) + bytes([w]), "tail": blob(31, w + 1) + bytes([w]), "all": bytes([w]) * 32}[form]
+            p1, p2 = fpath(dg, "plain_text_digest.bin"), fpath(b"77", "plain_text_size.txt")
+            desc = base_env({"suit-install": [{"suit-directive-override-parameters": {
+                "suit-parameter-image-digest": {"suit-digest-algorithm-id": "cose-alg-sha-256", "suit-digest-bytes": {"file_direct": p1}},
+                "suit-parameter-image-size": {"file_direct": p2}}}]})
+            cases.append((desc, {p1: dg, p2: b"77"}, {"kind": "file_direct", "alg": "cose-alg-sha-256", "size": 77, "digest": dg, "len": 77, "form": f"ws{w}-{form}"}))
     # raw forms
     desc = base_env({"suit-install": [{"suit-directive-override-parameters": {
         "suit-parameter-image-digest": {"suit-digest-algorithm-id": "cose-alg-sha-256", "suit-digest-bytes": {"raw": "00" * 32}},
